@@ -26,6 +26,12 @@ func HarnessC13LocalFSConfinement() {
 	n := verifrt.Choose(maxN + 1)
 	p := verifrt.String(n)
 	op := verifrt.Choose(14)
+	// also: absolute host paths that begin with the base's own path and then
+	// leave it ("<base>/../s", "<base>2/x")
+	baseRelative := false
+	if n <= 3 && verifrt.Bool() {
+		baseRelative = true
+	}
 
 	base, parent := "/base", ""
 	native := !verifrt.Symbolic()
@@ -47,6 +53,13 @@ func HarnessC13LocalFSConfinement() {
 	verifrt.Assert(err == nil, "filesystem-created")
 	if err != nil {
 		return
+	}
+	if baseRelative {
+		// a NUL byte makes the operating system refuse the path: nothing to observe
+		for i := 0; i < len(p); i++ {
+			verifrt.Assume(p[i] != 0)
+		}
+		p = base + p
 	}
 	leaked := false // something outside the base was read
 	switch op {
